@@ -169,7 +169,24 @@ def check_plan(c, ctx, tag):
     xmax = float(np.max(np.abs(x)))
     tol = TOL * n * xmax
     x0 = x.copy()
-    got = w.call(x)
+    # memory layout of the caller's array: the DFT is a function of the values x[i, j, ...], not of how numpy stores them
+    layout = c.get("layout", "C")
+    xin = x
+    if layout == "F" and x.ndim >= 2:
+        xin = np.asfortranarray(x)
+    elif layout == "strided":
+        big = np.zeros(x.shape[:-1] + (2 * x.shape[-1],), dtype=x.dtype)
+        xin = big[..., ::2]
+        xin[...] = x
+    noncontig = not xin.flags.c_contiguous
+    ctx.event("input_layout=" + ("C" if not noncontig else layout))
+    got = w.call(xin)
+    if noncontig:
+        ctx.check(lib.fftw_shim_error() == 0, ("extent_flag", cls), flag=lib.fftw_shim_error())
+        ctx.check(tuple(got.shape) == eout, ("result_shape", cls), got=list(got.shape), want=list(eout))
+        ctx.close(got, want, ("dft_noncontiguous_input", layout), rtol=0, atol=tol, dims=dims, nt=nt, flags=cls)
+        ctx.equal_bits(np.asarray(xin), x0, ("input_modified", cls))
+        got = w.call(x)
     ctx.check(lib.fftw_shim_error() == 0, ("extent_flag", cls), flag=lib.fftw_shim_error())
     ctx.check(tuple(got.shape) == eout, ("result_shape", cls), got=list(got.shape), want=list(eout))
     ctx.check(got.dtype == (np.float64 if (r2c and not fwd) else np.complex128), ("result_dtype", cls),
@@ -296,7 +313,8 @@ def st_plan(draw, maxext=12, cap=None):
     return {"dims": dims, "nt": nt, "fwd": draw(st.booleans()), "r2c": draw(st.booleans()),
             "inplace": draw(st.booleans()), "batch_first": draw(st.booleans()),
             "seed": draw(st.integers(0, 2**31 - 1)), "ncall": draw(st.sampled_from([1, 1, 2, 3])),
-            "bad": {"kind": draw(st.sampled_from(BAD_KINDS)), "axis": draw(st.integers(0, 4))}}
+            "bad": {"kind": draw(st.sampled_from(BAD_KINDS)), "axis": draw(st.integers(0, 4))},
+            "layout": draw(st.sampled_from(["C", "C", "C", "F", "strided"]))}
 
 
 def st_plan_small():
@@ -318,8 +336,8 @@ def st_roundtrip(draw):
 
 
 RULE_COMMON = ("plans: rank 1-4, ntransform 1-6, all 16 (fwd,r2c,inplace,batch_first) combinations, inputs "
-               "C-contiguous normal deviates of the advertised dtype derived from a drawn seed (c2r input = "
-               "numpy rfftn of a real array); oracle numpy.fft.fftn/rfftn/ifftn*N/irfftn*N over the non-batch "
+               "normal deviates of the advertised dtype derived from a drawn seed (c2r input = "
+               "numpy rfftn of a real array), C-contiguous in 3/5 of the cases, Fortran-ordered or a strided view in 1/5 each; oracle numpy.fft.fftn/rfftn/ifftn*N/irfftn*N over the non-batch "
                "axes at 1e-13*N*max|x|, advertised shapes, ValueError for one of 9 constructed wrong shapes "
                "(then the plan must reproduce its first result bit for bit), 1-3 calls with different inputs, "
                "test-double extent flag == 0, fftw_malloc live count and live FFTW plan count back to their start after "
